@@ -1,7 +1,7 @@
 from .common import pyvc_units
 
 LEVEL = "other"
-MODULES = ["vf.contracts.c_components"]
+MODULES = ["vf.contracts.c_components", "vf.contracts.c_rewrite"]
 EXPLANATION = ('BOUNDED, exact arithmetic (xlift): 4 visible modes, programs over a 17-letter alphabet (swaps, phase shifters, adjacent and non-adjacent beam splitters in both conventions and mode orders, loss, barrier, unitary block, plain group, heralded group with a non-adjacent BS inside) - all pairs plus 400 (quick) / 3000 (thorough) swap-rich programs of length 3-5 - under each of unpack_groups, compress_mode_swaps, remove_non_adjacent_bs, copy, copy(freeze) and every ordered pair of the first three: U_full, heralds, input size unchanged (hence every heralded amplitude); no group remains / no non-adjacent BS remains at any depth / component count not grown; editing the rewritten circuit does not change the original. PROVED unbounded (pyvc): the permutation matrix of a swap dictionary (C01). NOT under contract: unpack_circuit_spec, compress_mode_swaps, combine_mode_swap_dicts, convert_non_adj_beamsplitters, _freeze_params (bounded only). ADDED LATER (bounded, native): unpack_circuit_spec on specs with groups nested 1-3 deep terminates, leaves no group and keeps the unitary.')
 ASSUMPTIONS = ["A1: exact reals", "bounded: 4 visible modes, programs of <=5 components from a 17-letter alphabet, rewrite sequences of length <=2"]
 TRUSTED = ["xlift field + numpy proxy", "z3 5.1"]
